@@ -268,13 +268,20 @@ pub fn build_world(seed: u64, idx: u64, out: &mut RunOut) -> World {
     2 => Some(vec!["other".to_string(), "featx".to_string()]),
     _ => Some(vec!["other".to_string()]),
   };
-  let cmd = if rk.chance(1, 10) { "compile-cddl" } else { "validate" };
+  let cmd = if rk.chance(1, 7) { "compile-cddl" } else { "validate" };
   // schema state
   let (schema, schema_state) = match rf.weighted(&[14, 3, 1, 1, 1, 1]) {
     0 => (Node::File(schema_text.clone().into_bytes()), "valid"),
     1 => {
       let mut s = schema_text.clone();
-      s.push_str(*rf.pick(&["x = [1, 2\n", "= int\n", "y = {a: \n", "z = #6.(\n", "root = int\n"]));
+      // sometimes the defect sits far into the file (beyond any plausible read cap) and / or on a last line
+      // without a newline; first-stage (syntax) and second-stage (duplicate rule, undefined reference) errors
+      if rf.chance(1, 4) {
+        for k in 0..rf.range(200, 3000) {
+          s.push_str(&format!("; padding line {} ........................................\n", k));
+        }
+      }
+      s.push_str(*rf.pick(&["x = [1, 2\n", "= int\n", "y = {a: \n", "z = #6.(\n", "root = int\n", "u = undefined-thing\n", "x = [1, 2", "u2 = [undefined-a, undefined-b]", "root = tstr", "dup-r = 1\ndup-r = 2"]));
       (Node::File(s.into_bytes()), "invalid")
     }
     2 => (Node::Absent, "missing"),
